@@ -1149,7 +1149,7 @@ def t_spec():
              "worst_exact_deviation": TWORST["exact_dev"], "worst_library_gate_deviation": TWORST["lib_dev"],
              "worst_update_relative_deviation": TWORST["update_rel"], "worst_split_weight_relative_deviation": TWORST["split_rel"],
              "worst_trace_deviation": TWORST["trace_dev"], "tolerances": {"exact": T_EXACT_TOL, "library": T_LIB_TOL, "update": 1e-8, "split": 1e-9}},
-            {"name": "np.linalg.svd spec on the matrices decompose_theta handed to it (U diag(s) Vh = M, UhU = 1, VhVhh = 1, s sorted >= 0) — the hypotheses of split_then_merge",
+            {"name": "np.linalg.svd spec on every call made during the tensor ties — decompose_theta's flattened blocks and the gate constructors' (U diag(s) Vh = M, UhU = 1, VhVhh = 1, s sorted >= 0): the hypotheses of split_then_merge",
              "ok": TWORST["svd_bad"] == 0, "n": TWORST["svd_n"], "worst": TWORST["svd_worst"], "detail": TWORST["svd_detail"]}]
 
 
